@@ -50,11 +50,9 @@ static int secp256k1_dleq_nonce(const secp256k1_hash_ctx *hash_ctx, secp256k1_sc
         return 0;
     }
     secp256k1_scalar_set_b32(k, nonce, NULL);
-    if (secp256k1_scalar_is_zero(k)) {
-        return 0;
-    }
-
-    return 1;
+    /* k is secret: report a zero nonce through the return value without branching on it
+     * (the caller declassifies the returned flag). */
+    return !secp256k1_scalar_is_zero(k);
 }
 
 /* Generates a challenge as defined in the DLC Specification at
